@@ -340,7 +340,9 @@ def c17_case(tdir, d, k, b):
     bed = os.path.join(d, "r_%s.bed" % tag)
     with open(bed, "w") as f:
         for i, r in enumerate(b["regions"], 1):
-            f.write("%s\t%d\t%d\tr%d\tx%d\n" % (chrom_name(r[0]), r[1], r[2], i, i))
+            # every fifth list: a sixth column of 20 000 characters on every third line (lines longer than any reader buffer)
+            extra = ("\t" + "annotation" * 2000) if (k % 5 == 0 and i % 3 == 1) else ""
+            f.write("%s\t%d\t%d\tr%d\tx%d%s\n" % (chrom_name(r[0]), r[1], r[2], i, i, extra))
     out = os.path.join(d, "o_%s.txt" % tag)
     args = [bw, bed, out, "-t", str(b["threads"])]
     nm = b["name"]
@@ -365,7 +367,11 @@ def c17_case(tdir, d, k, b):
                 name = int(p[3][1:]) if p[3].startswith("r") else 0
                 ok = p[0] == chrom_name(b["regions"][name - 1][0]) and int(p[1]) == b["regions"][name - 1][1] and int(p[2]) == b["regions"][name - 1][2] and p[4] == "x%d" % name if name else False
                 name = name if ok else 0
-                p = p[5:]
+                # (the rows that carry the long sixth column echo it too)
+                has_extra = bool(name) and k % 5 == 0 and name % 3 == 1
+                if has_extra and p[5] != "annotation" * 2000:
+                    name = 0
+                p = p[6:] if has_extra else p[5:]
             elif nm == "interval":
                 ch, _, se = p[0].partition(":")
                 s_, _, e_ = se.partition("-")
